@@ -62,6 +62,7 @@ type BankWrite struct{ Addr, Denom, Val string }
 type Event struct {
 	Type  string
 	Attrs []string
+	Guard string // "" = emitted unconditionally on this path; otherwise emitted iff the term holds (after a state merge)
 }
 
 // env part of state (deep-copied in clone via cloneEnv)
@@ -69,6 +70,20 @@ type Layer struct {
 	Stores map[string][]StoreEntry
 	Bank   []BankWrite
 	Closed bool // closed world: unseen keys are absent (no lazy havoc)
+	ClosedPrefixes map[string][]BytesV // per store: prefixes declared closed by the harness (zzvp.ClosePrefix)
+}
+
+// closedFor: is the key (or iteration prefix) inside a closed region of the store?
+func (l *Layer) closedFor(store string, key BytesV) bool {
+	if l.Closed {
+		return true
+	}
+	for _, p := range l.ClosedPrefixes[store] {
+		if prefixMatch(p, key) == "true" {
+			return true
+		}
+	}
+	return false
 }
 type IterV struct {
 	ID int // heap object holding the iterator state
@@ -104,7 +119,7 @@ func (s *State) env() *Env {
 	return s.E
 }
 func copyLayer(l *Layer) *Layer {
-	n := &Layer{Stores: make(map[string][]StoreEntry, len(l.Stores)), Closed: l.Closed}
+	n := &Layer{Stores: make(map[string][]StoreEntry, len(l.Stores)), Closed: l.Closed, ClosedPrefixes: l.ClosedPrefixes}
 	for k, v := range l.Stores {
 		n.Stores[k] = append([]StoreEntry{}, v...)
 	}
@@ -114,6 +129,7 @@ func copyLayer(l *Layer) *Layer {
 func mergeLayer(parent, child *Layer) *Layer {
 	n := copyLayer(child)
 	n.Closed = parent.Closed
+	n.ClosedPrefixes = parent.ClosedPrefixes
 	return n
 }
 func cloneEnv(e *Env) *Env {
@@ -447,7 +463,7 @@ func (e *Exec) storeGet(s *State, st StoreV, key BytesV) GetResult {
 			break
 		}
 	}
-	if !closed && env.L[st.Ctx].Closed {
+	if !closed && env.L[st.Ctx].closedFor(st.Name, key) {
 		g.Conds = append(g.Conds, "true")
 		g.Ents = append(g.Ents, StoreEntry{Key: key, Present: "false", Val: BytesV{Nil: true}})
 		closed = true
@@ -467,7 +483,7 @@ func (e *Exec) storeGet(s *State, st StoreV, key BytesV) GetResult {
 		e.mu.Unlock()
 		// insert the pre-state entry at the FRONT (oldest) so later writes shadow it
 		for _, ly := range env.L { // the pre-state is shared by all open context layers
-			if !ly.Closed {
+			if !ly.closedFor(st.Name, key) {
 				ly.Stores[st.Name] = append([]StoreEntry{ent}, ly.Stores[st.Name]...)
 			}
 		}
@@ -507,7 +523,7 @@ func prefixMatch(prefix, key BytesV) string {
 func (e *Exec) liveEntries(s *State, st StoreV, prefix BytesV) []StoreEntry {
 	prefix = fullKey(st, prefix)
 	env := s.env()
-	if !env.L[st.Ctx].Closed {
+	if !env.L[st.Ctx].closedFor(st.Name, prefix) {
 		e.drop("iteration over an open (havocked) table: " + st.Name)
 	}
 	ents := env.L[st.Ctx].Stores[st.Name]
@@ -556,27 +572,51 @@ func (e *Exec) liveEntries(s *State, st StoreV, prefix BytesV) []StoreEntry {
 	return out
 }
 
+// mkIte builds (ite c a b); inside a state merge large results get a fresh name so that terms do not grow exponentially
+func (e *Exec) mkIte(c, a, b string, sort string) string {
+	t := tIte(c, a, b)
+	if e.nameSink == nil || len(t) < 120 || sort == "Real" {
+		return t
+	}
+	var n string
+	if sort == "Bool" {
+		n = e.sol.fresh("m", true)
+	} else {
+		n = e.sol.fresh("m", false)
+	}
+	*e.nameSink = append(*e.nameSink, "#name#(= "+n+" "+t+")")
+	return n
+}
+
 func (e *Exec) iteVal(c string, a, b Val) Val {
 	switch x := a.(type) {
 	case Sym:
-		return Sym{Bool: x.Bool, S: tIte(c, x.S, b.(Sym).S)}
+		if x.Bool {
+			return Sym{Bool: true, S: e.mkIte(c, x.S, b.(Sym).S, "Bool")}
+		}
+		return Sym{S: e.mkIte(c, x.S, b.(Sym).S, "Int")}
 	case BigV:
 		y := b.(BigV)
-		if x.Nil != y.Nil {
-			panic("iteVal: nil/non-nil big")
+		nx, ny := bigNilTerm(x), bigNilTerm(y)
+		if nx == "true" && ny == "true" {
+			return BigV{Nil: true, T: "0"}
 		}
-		return BigV{Nil: x.Nil, T: tIte(c, x.T, y.T)}
+		nm := tIte(c, nx, ny)
+		if nm == "false" {
+			nm = ""
+		}
+		return BigV{T: e.mkIte(c, x.T, y.T, "Int"), NilIf: nm}
 	case TimeV:
-		return TimeV{T: tIte(c, x.T, b.(TimeV).T)}
+		return TimeV{T: e.mkIte(c, x.T, b.(TimeV).T, "Int")}
 	case FloatV:
-		return FloatV{T: tIte(c, x.T, b.(FloatV).T)}
+		return FloatV{T: e.mkIte(c, x.T, b.(FloatV).T, "Real")}
 	case StrV, SymStr:
 		if xs, ok := a.(StrV); ok {
 			if ys, ok := b.(StrV); ok && xs.S == ys.S {
 				return a
 			}
 		}
-		return SymStr{T: tIte(c, e.strID(a), e.strID(b))}
+		return SymStr{T: e.mkIte(c, e.strID(a), e.strID(b), "Int")}
 	case StructV:
 		y := b.(StructV)
 		f := make([]Val, len(x.F))
@@ -904,4 +944,14 @@ func (e *Exec) findKeeper(it *types.Interface, fieldName string) types.Type {
 		}
 	}
 	return best
+}
+
+func bigNilTerm(b BigV) string {
+	if b.Nil {
+		return "true"
+	}
+	if b.NilIf == "" {
+		return "false"
+	}
+	return b.NilIf
 }
